@@ -256,6 +256,20 @@ def w_pairs(reg):
                         s = judge_row(a.name, sa[0], sa[1], sa[2], msg)
                         if s:
                             acc.bad(s + ":joint_with_%s" % b.name, {"kind": "row", "name": a.name, "f": list(sa), "msg": msg})
+            # arithmetic relations between two fields of equal width: the whole diagonal (A == B), the anti-diagonal
+            # (A + B == all ones) and the neighbours (A == B + 1)
+            if a.nbits == b.nbits and a.nbits <= 12:
+                top = (1 << a.nbits) - 1
+                for v in range(top + 1):
+                    for vb in (v, top - v, (v + 1) & top):
+                        k += 1
+                        sa = (1, 0, v)
+                        mb = a.place(*sa) | b.place(1, 0, vb)
+                        msg = vary_case(carrier(mb, k), k // 2)
+                        acc.n += 1
+                        s = judge_row(a.name, sa[0], sa[1], sa[2], msg)
+                        if s:
+                            acc.bad(s + ":joint_with_%s" % b.name, {"kind": "row", "name": a.name, "f": list(sa), "msg": msg})
             acc.out.add(("pair", a.name, b.name))
     return acc.res()
 
